@@ -9,7 +9,7 @@ CoreT<TArgs>::CoreT(Context& context_
 				  HFSM2_IF_UTILITY_THEORY(, RNG& rng_)
 				  HFSM2_IF_LOG_INTERFACE(, Logger* const logger_)) noexcept
 	: context{context_}
-	HFSM2_IF_UTILITY_THEORY(, rng{rng_})
+	HFSM2_IF_UTILITY_THEORY(, rng{&rng_})
 	HFSM2_IF_LOG_INTERFACE(, logger{logger_})
 {}
 
@@ -21,7 +21,7 @@ CoreT<TArgs>::CoreT(PureContext&& context_
 				  HFSM2_IF_UTILITY_THEORY(, RNG& rng_)
 				  HFSM2_IF_LOG_INTERFACE(, Logger* const logger_)) noexcept
 	: context{move(context_)}
-	HFSM2_IF_UTILITY_THEORY(, rng	{rng_	})
+	HFSM2_IF_UTILITY_THEORY(, rng	{&rng_	})
 	HFSM2_IF_LOG_INTERFACE (, logger{logger_})
 {}
 
@@ -51,7 +51,7 @@ CoreT<TArgs>::CoreT(CoreT&& other) noexcept
 	HFSM2_IF_PLANS			   (, planData			 {move(other.planData			)})
 	HFSM2_IF_TRANSITION_HISTORY(, transitionTargets  {move(other.transitionTargets	)})
 	HFSM2_IF_TRANSITION_HISTORY(, previousTransitions{move(other.previousTransitions)})
-	HFSM2_IF_UTILITY_THEORY	   (, rng				 {move(other.rng				)})
+	HFSM2_IF_UTILITY_THEORY	   (, rng				 {other.rng						})
 	HFSM2_IF_LOG_INTERFACE	   (, logger			 {move(other.logger				)})
 {}
 
